@@ -93,7 +93,8 @@ Rename == /\ Can /\ name' = (IF name = "n1" THEN "n2" ELSE "n1") /\ lastOp' = [o
           /\ UNCHANGED <<files, target, dep, depdep, depwkt>>
 Retarget == /\ Can /\ dep # Absent /\ target' = ~target /\ lastOp' = [op |-> "retarget"] /\ steps' = steps + 1
             /\ UNCHANGED <<files, name, dep, depdep, depwkt>>
-SetDep(c) == /\ Can /\ dep # c /\ dep' = c /\ depdep' = (IF c = Absent THEN Absent ELSE depdep)
+\* (the dependency can only go away while M itself is targeted: a module set needs one targeted module)
+SetDep(c) == /\ Can /\ dep # c /\ (c = Absent => target) /\ dep' = c /\ depdep' = (IF c = Absent THEN Absent ELSE depdep)
              /\ lastOp' = [op |-> "setdep", content |-> c] /\ steps' = steps + 1
              /\ depwkt' = (IF c = Absent THEN FALSE ELSE depwkt)
              /\ UNCHANGED <<files, name, target>>
